@@ -144,8 +144,8 @@ def atom_facts(cond, truth):
         return out
     if k == "call" and e.get("name") == "holds_alternative" and e.get("args"):
         p = X.path(e["args"][0])
-        if p and t:
-            out.add("alt:%s:%s" % (e.get("callee", "").split("<", 1)[-1].split(">(")[0], p))
+        if p:
+            out.add("%s:%s|%s" % ("alt" if t else "nalt", p, e.get("callee", "").split("<", 1)[-1].split(">(")[0]))
         return out
     return out
 
@@ -200,7 +200,7 @@ def _apply_kills(facts, dead):
         if f.startswith("T:") or f.startswith("F:") or ":" not in f:
             out.add(f)
             continue
-        p = f.split(":", 1)[1] if not f.startswith("alt:") else f.split(":", 2)[2]
+        p = f.split(":", 1)[1] if not f.startswith(("alt:", "nalt:")) else f.split(":", 1)[1].split("|", 1)[0]
         if f.startswith("eq:") or f.startswith("ne:"):
             p = p.split("==", 1)[0]
         if f.startswith("ge:") or f.startswith("le:"):
